@@ -147,7 +147,7 @@ HDflush(int32 file_id)
 {
     filerec_t *file_rec;
 
-    file_rec = HAatom_object(file_id);
+    file_rec = HIfid2rec(file_id);
     if (BADFREC(file_rec))
         HRETURN_ERROR(DFE_ARGS, FAIL);
 
@@ -319,7 +319,7 @@ HDfidtoname(int32 file_id)
 {
     filerec_t *file_rec;
 
-    if ((file_rec = HAatom_object(file_id)) == NULL)
+    if ((file_rec = HIfid2rec(file_id)) == NULL)
         HRETURN_ERROR(DFE_ARGS, NULL);
 
     return file_rec->path;
